@@ -11,6 +11,7 @@ CONSTANTS
   MaxFaults = 1
   MaxTop = 2
   MaxSettle = 0
+  Requesters <- MCRequesters
   RouteLists <- MCRoutesLive
   Concurrent = FALSE
   Timeouts = FALSE
